@@ -125,6 +125,10 @@ impl Report {
     pub fn count(&mut self, k: &str, n: u64) {
         *self.counters.entry(k.to_string()).or_insert(0) += n;
     }
+    pub fn uncount(&mut self, k: &str, n: u64) {
+        let e = self.counters.entry(k.to_string()).or_insert(0);
+        *e = e.saturating_sub(n);
+    }
     pub fn get(&self, k: &str) -> u64 {
         *self.counters.get(k).unwrap_or(&0)
     }
